@@ -1,10 +1,13 @@
 From Coq Require Import Extraction ExtrOcamlBasic.
-From Rumqtt Require Import Client.State4 Client.State4Orig.
+From Rumqtt Require Import Client.State4 Client.State4Orig Client.Run4.
 Extraction Language OCaml.
 Definition v4_init := State4.init.
 Definition v4_step := State4.step.
 Definition v4_step_orig := State4Orig.step_orig.
+Definition v4_k18 := Run4.k18.
+Definition v4_k19 := Run4.k19.
+Definition v4_contract := Run4.contract.
 Definition v4_drain := State4.drain.
 Definition v4_inflight := State4.inflight.
 Definition v4_collision := State4.collision.
-Extraction "client_model.ml" v4_init v4_step v4_step_orig v4_drain v4_inflight v4_collision.
+Extraction "client_model.ml" v4_init v4_step v4_step_orig v4_k18 v4_k19 v4_contract v4_drain v4_inflight v4_collision.
